@@ -26,19 +26,22 @@ IsEv(e) == l <= Len(Rec) /\ Rec[l].ev = e /\ l' = l + 1
 (* the second conversion must succeed whenever the first did *)
 Again(r) == r.again.ok
 
-ConvUnit == IsEv("ConvUnit") /\ LET r == Rec[l] IN
-    Again(r) /\ ConvertOk(UnitMeaning, r.min, r.mout, r.mout2)
-ConvEntry == IsEv("ConvEntry") /\ LET r == Rec[l] IN
-    Again(r) /\ ConvertOk(EntryMeaning, r.min, r.mout, r.mout2)
-ConvLineHeader == IsEv("ConvLineHeader") /\ LET r == Rec[l] IN
-    Again(r) /\ ConvertOk(LineHeaderMeaning, r.min, r.mout, r.mout2)
-ConvLineSeq == IsEv("ConvLineSeq") /\ LET r == Rec[l] IN
-    Again(r) /\ ConvertOk(SeqMeaning, r.min, r.mout, r.mout2)
-ConvFde == IsEv("ConvFde") /\ LET r == Rec[l] IN
+(* Convert!ConvertOk(M, min, mout, mout2) with every projection evaluated once *)
+Ok3(M(_), r) == LET a == M(r.min)
+                    b == M(r.mout)
+                    c == M(r.mout2) IN b = a /\ c = b
+
+ConvUnit == IsEv("ConvUnit") /\ LET r == Rec[l] IN Again(r) /\ Ok3(UnitMeaning, r)
+ConvEntry == IsEv("ConvEntry") /\ LET r == Rec[l] IN Again(r) /\ Ok3(EntryMeaning, r)
+ConvLineHeader == IsEv("ConvLineHeader") /\ LET r == Rec[l] IN Again(r) /\ Ok3(LineHeaderMeaning, r)
+ConvLineSeq == IsEv("ConvLineSeq") /\ LET r == Rec[l] IN Again(r) /\ Ok3(SeqMeaning, r)
+ConvFde == IsEv("ConvFde") /\ LET r == Rec[l]
+                                  a == FdeMeaning(r.min)
+                                  b == FdeMeaning(r.mout)
+                                  c == FdeMeaning(r.mout2) IN
     /\ Again(r)
-    /\ ConvertOk(FdeMeaning, r.min, r.mout, r.mout2)
-    /\ ("exp" \in DOMAIN r) => /\ FdeMeaning(r.mout).unwind = r.exp.unwind
-                               /\ FdeMeaning(r.mout).fin = "end"
+    /\ b = a /\ c = b
+    /\ ("exp" \in DOMAIN r) => (b.unwind = r.exp.unwind /\ b.fin = "end")
 ConvDone == IsEv("ConvDone") /\ LET r == Rec[l] IN
     Again(r) /\ r.nout = r.nin /\ r.nout2 = r.nout
 ConvertFailed == IsEv("ConvertFailed")
